@@ -114,6 +114,9 @@ func refSearch(d uint64, dh *[32]byte, limit uint64) (nonce uint64, found bool, 
 		if refWork(n, dh) >= t {
 			return n, true, n + 1
 		}
+		if n&(1<<22-1) == 0 {
+			xs.Tick() // a long reference search records nothing: tell the driver's stall watchdog that it is alive
+		}
 	}
 	return 0, false, limit
 }
